@@ -28,6 +28,39 @@ def run(ctx):
     tf = ctx.trace_path("samplers")
     ctx.drive("sampler_run", [tf, ctx.tier, ctx.seed])
     ctx.validate("Trace_Sampler", "Trace_Sampler.cfg", tf)
+    # the adapted trees: the descent as written (AdaptedTree.tla) induces exactly the target law on every small grid; the
+    # same descent is then evaluated by TLC on the driver's sweeps and compared draw by draw with the real samplers
+    ctx.design("MC_AdaptedTree", "AdaptedTree_1d.cfg", constants="1-d: 3..6 states, every origin, cell weights 0..2, lattice 2 S", coverage=False)
+    ctx.design("MC_AdaptedTree", "AdaptedTree_2dq.cfg" if quick else "AdaptedTree_2d.cfg",
+               constants="2-d: 3 x 3 grid, cell weights 0.." + ("1" if quick else "2") + ", lattice 2 S", coverage=False, timeout=3000)
+    if not quick:
+        ctx.design("MC_AdaptedTree", "AdaptedTree_2db.cfg", constants="2-d: 3 x 4 and 4 x 3 grids, cell weights 0..1", coverage=False, timeout=3000)
+    import json
+    ta = ctx.trace_path("adapted")
+    kept = {}
+    with open(tf) as f, open(ta, "w") as g:
+        for ln in f:
+            if "BINARYSEARCHTREEADAPTED" in ln:
+                o = json.loads(ln)
+                h = o["hdr"]
+                m = h["method"]
+                if not (m.startswith("chain") and "shape" in h and len(h["W"]) <= 64 and h["N"] <= (600 if quick else 1500)):
+                    continue
+                # sizes and (1-based) origin index of every axis, from the header conventions of sampler_run.py
+                if m == "chain1d:BINARYSEARCHTREEADAPTED1D":
+                    nl, nr, lvl = h["shape"]
+                    h["ad"] = {"sizes": [len(h["W"])], "orgs": [nl * 2 ** lvl + 1]}
+                elif m.startswith("chain1d:") and m.endswith(":BINARYSEARCHTREEADAPTED1D"):
+                    h["ad"] = {"sizes": [h["shape"][0]], "orgs": [h["shape"][1] + 1]}
+                elif m.endswith("d:BINARYSEARCHTREEADAPTED"):
+                    d, nl, nr = h["shape"]
+                    h["ad"] = {"sizes": [nl + nr + 1] * d, "orgs": [nl + 1] * d}
+                else:
+                    continue
+                kept[m] = kept.get(m, 0) + 1
+                if kept[m] <= (8 if quick else 40):
+                    g.write(json.dumps(o) + "\n")
+    ctx.validate("Struct_Adapted", "Struct_Adapted.cfg", ta)
     ctx.assumptions += [
         "uniforms range over the lattice of mid-points (2i+1)/(2N): no draw sits on a threshold, counts are exact",
         "the table method is judged up to the 2^-24 resolution of its embedded alias draw (slack 2K+2 lattice points)",
